@@ -22,3 +22,48 @@ pub fn normalize_encoded_attr(attr: &str) -> String {
 pub fn subject_encode(subject: &CredentialSubject) -> crate::Result<CredentialValues> {
     subject.encode()
 }
+
+/// Fault injection for the tails writer (C19): the n-th `hit` of the current thread returns an
+/// I/O error or aborts the process. Disarmed by default; `hit` is then a counter increment.
+pub mod failpoint {
+    use std::cell::Cell;
+
+    #[derive(Clone, Copy, PartialEq, Eq, Debug)]
+    pub enum Mode {
+        Error,
+        Abort,
+    }
+
+    thread_local! {
+        static PLAN: Cell<Option<(u64, Mode)>> = const { Cell::new(None) };
+        static HITS: Cell<u64> = const { Cell::new(0) };
+    }
+
+    /// Fire at the `nth` hit (0-based) counted from now on.
+    pub fn arm(nth: u64, mode: Mode) {
+        HITS.with(|h| h.set(0));
+        PLAN.with(|p| p.set(Some((nth, mode))));
+    }
+
+    /// Disarm and return the number of hits seen since `arm` / the last `disarm`.
+    pub fn disarm() -> u64 {
+        PLAN.with(|p| p.set(None));
+        HITS.with(|h| h.replace(0))
+    }
+
+    pub fn hit(name: &str) -> std::io::Result<()> {
+        let n = HITS.with(|h| {
+            let n = h.get();
+            h.set(n + 1);
+            n
+        });
+        match PLAN.with(Cell::get) {
+            Some((k, Mode::Error)) if k == n => Err(std::io::Error::new(
+                std::io::ErrorKind::Other,
+                format!("injected fault at {name} (hit {n})"),
+            )),
+            Some((k, Mode::Abort)) if k == n => std::process::abort(),
+            _ => Ok(()),
+        }
+    }
+}
